@@ -155,43 +155,35 @@ def step (s : State) (args : List String) (impl : String) : State × Out :=
   | ["alloc", a, vs] =>
     match natArg a, streamArg vs with
     | some a, some st =>
-      match s.vpnIps.get a with
-      | none => finish s s "nopending" .plain [] "triv:alloc:nopending" impl
-      | some h =>
-        if (s.obj h).ready then finish s s "ready" .plain [] "triv:alloc:ready" impl else
-        let (s', r) := allocateIndex s h st
-        let s' := match r with | .ok _ => s'.setObj h { s'.obj h with ready := true } | _ => s'
-        let collided : Bool := match genIndex st with
-          | some (i, _) => (s.pidx.get i).isSome || (s.indexes.get i).isSome | none => false
+      let (s', r) := opAlloc s a st
+      let collided : Bool := match genIndex st with
+        | some (i, _) => (s.pidx.get i).isSome || (s.indexes.get i).isSome | none => false
+      match r with
+      | none =>
+        if (s.vpnIps.get a).isNone then finish s s' "nopending" .plain [] "triv:alloc:nopending" impl
+        else finish s s' "ready" .plain [] "triv:alloc:ready" impl
+      | some r =>
         finish s s' (allocStr r) .handOut []
           (match r with | .ok _ => (if collided then "alloc:ok-after-collision" else "alloc:ok") | _ => "alloc:" ++ allocStr r) impl
     | _, _ => (s, badOp)
   | ["fin", i, ads, r, t] =>
     match natArg i, addrsArg ads, natArg r, natArg t with
     | some i, some ads, some r, some t =>
-      match s.pidx.get i with
-      | none => finish s s "nopending" .plain [] "triv:fin:nopending" impl
-      | some h =>
-        let a0 := (s.obj h).addrs.headD 0
-        if ads.contains a0 then
-          let s1 := s.setObj h { s.obj h with addrs := ads, ridx := r, hsTime := t, initiator := true }
-          let s' := complete s1 h
-          let evict : Bool := ads.any fun a => decide ((hostList s a).length ≥ maxHostInfos)
-          finish s s' s!"ok {h}" .plain [h] (if evict then "fin:ok-evict" else "fin:ok") impl
-        else
-          let s1 := pendingDelete s h
-          let (s', h', isNew) := startHandshake s1 a0
-          finish s s' (if isNew then s!"wrong new {h'}" else s!"wrong have {h'}") .plain [] "fin:wrong-host" impl
+      let (s', fr) := opFin s i ads r t
+      match fr with
+      | .noPending => finish s s' "nopending" .plain [] "triv:fin:nopending" impl
+      | .completed h =>
+        let evict : Bool := ads.any fun a => decide ((hostList s a).length ≥ maxHostInfos)
+        finish s s' s!"ok {h}" .plain [h] (if evict then "fin:ok-evict" else "fin:ok") impl
+      | .wrongHost h' isNew =>
+        finish s s' (if isNew then s!"wrong new {h'}" else s!"wrong have {h'}") .plain [] "fin:wrong-host" impl
     | _, _, _, _ => (s, badOp)
   | ["resp", ads, r, p, t, vs] =>
     match addrsArg ads, natArg r, natArg p, natArg t, streamArg vs with
     | some ads, some r, some p, some t, some st =>
-      match genIndex st with
+      match opResp s ads r p t st with
       | none => (s, badOp)
-      | some (idx, _) =>
-        let h := s.next
-        let s1 := { s with objs := s.objs.set h { addrs := ads, lidx := idx, ridx := r, pkt := p, hsTime := t }, next := s.next + 1 }
-        let (s', cr) := checkAndComplete s1 h
+      | some (s', h, idx, cr) =>
         let (rs, tag) := match cr with
           | .added e => (s!"ok {optStr e}",
               if ads.any (fun a => decide ((hostList s a).length ≥ maxHostInfos)) then "resp:ok-evict"
